@@ -402,5 +402,15 @@ theorem scalarParam_eq {h : Heap α} {parameters : Arr} {rows nSets row i : Int}
   simp only [this, goMod_eq hi0 hnS]
   exact hg1
 
+/-- the array value `arrayFromSlice(data, D)` returns on storage `sid`, as a term -/
+def rootArr (sid : Nat) (D : Idx) (len : Nat) : Arr := ⟨rootView D 0, sid, 0, len, false⟩
+
+theorem rootOn_rootArr {h : Heap α} {sid : Nat} {st : List α} {D : Idx} (hne : D ≠ []) (hpos : Pos D)
+    (hs : h[sid]? = some st) (hf : product D ≤ st.length) :
+    fromStore h sid D = .ok (rootArr sid D st.length) ∧ RootOn h (rootArr sid D st.length) D := by
+  refine ⟨?_, ⟨rfl, rfl, ?_, hpos, hne⟩⟩
+  · simp [fromStore, rootArr, storeOf, hs, root_eq D 0 hne, bind, Except.bind, pure, Except.pure]
+  · exact ⟨⟨st, hs, by simp [rootArr]⟩, by simp [rootArr], hf, by simp [rootArr]⟩
+
 end
 end OW.WrapperNd
